@@ -10,7 +10,7 @@ oracle_c04 — line protocol (keys and values are naturals, sizes/capacities int
       single: `<result> | K=[k,…] I=[k:v:s,…] S=<len>,<size>,<cap>,<evictions>`
       wide (keyed ops only): `<result> | P=[k:v,…]`   (Peek of every key 0…U-1)
   `reset`                                        → `ok`        no cache (every op answers `bad-op`)
-  `conc <seed> <threads> <ops>`                  → `inv-ok`    (concurrent callers: invariants only)
+  `conc <seed> <threads> <ops>`                  → `inv-ok`    (parallel stress run in a child process: invariants at quiescence; ends the script)
 The configurations and the per-shard capacity kernel are the regenerated ones (`Nv.Gen.C04`).
 -/
 open Nv Nv.C04
@@ -38,7 +38,7 @@ def parseKind (s : String) : Option Kind :=
 def showEntry (e : Entry) : String := s!"{e.key}:{e.val}:{e.size}"
 
 def snapshot (s : Lru) : String :=
-  s!"K={showList toString (s.list.map (·.key))} I={showList showEntry s.list} S={s.list.length},{s.size},{s.capacity},{s.evictions}"
+  s!"K={showList toString (s.list.map (·.key))} I={showList showEntry s.list} S={s.list.length},{s.size},{s.capacity},{s.evictions} A={s.list.length},{s.size},{s.capacity},{s.evictions}"
 
 def showOut : Out → String
   | .unit => "ok"
@@ -51,17 +51,22 @@ def showOut : Out → String
   | .stats l s c e => s!"S={l},{s},{c},{e}"
   | .panic => "panic"
 
+def inInt64 (i : Int) : Bool := decide (-(2:Int)^63 ≤ i) && decide (i < (2:Int)^63)
+
+/-- an `int64` argument -/
+def parseI64? (s : String) : Option Int := (parseInt? s).bind fun i => if inInt64 i then some i else none
+
 def parseOp (ws : List String) : Option Op :=
   match ws with
-  | ["set", k, v, sz] => do some (.set (← parseNat? k) (← parseNat? v) (← parseInt? sz))
-  | ["sia", k, v, sz] => do some (.setIfAbsent (← parseNat? k) (← parseNat? v) (← parseInt? sz))
-  | ["sgr", k, v, sz] => do some (.setGetRemoved (← parseNat? k) (← parseNat? v) (← parseInt? sz))
+  | ["set", k, v, sz] => do some (.set (← parseNat? k) (← parseNat? v) (← parseI64? sz))
+  | ["sia", k, v, sz] => do some (.setIfAbsent (← parseNat? k) (← parseNat? v) (← parseI64? sz))
+  | ["sgr", k, v, sz] => do some (.setGetRemoved (← parseNat? k) (← parseNat? v) (← parseI64? sz))
   | ["get", k] => do some (.get (← parseNat? k))
   | ["peek", k] => do some (.peek (← parseNat? k))
   | ["exist", k] => do some (.exist (← parseNat? k))
   | ["del", k] => do some (.delete (← parseNat? k))
   | ["clear"] => some .clear
-  | ["cap", c] => do some (.setCapacity (← parseInt? c))
+  | ["cap", c] => do some (.setCapacity (← parseI64? c))
   | ["keys"] => some .keys
   | ["items"] => some .items
   | ["stats"] => some .stats
@@ -79,8 +84,6 @@ def widePeekDump (u : Nat) (r : Route) (w : Wide) : String :=
     | some s => (find? k s.list).map fun e => s!"{k}:{e.val}"
     | none => some s!"{k}:panic"
   showList id cells
-
-def inInt64 (i : Int) : Bool := decide (-(2:Int)^63 ≤ i) && decide (i < (2:Int)^63)
 
 def step (st : St) (line : String) : St × String :=
   match words line with
@@ -106,7 +109,8 @@ def step (st : St) (line : String) : St × String :=
     | _, _, _, _ => (st, "bad-op")
   | ["conc", a, b, c] =>
     match st, parseNat? a, parseNat? b, parseNat? c with
-    | .single _ _, some _, some _, some _ => (st, "inv-ok")
+    | .none, _, _, _ => (st, "bad-op")
+    | _, some _, some t, some n => if t < 1 ∨ t > 16 ∨ n > 5000 then (st, "bad-op") else (.none, "inv-ok")
     | _, _, _, _ => (st, "bad-op")
   | ws =>
     match parseOp ws with
